@@ -10,8 +10,8 @@
 
 const char *verif_property = "C02";
 const char *verif_class_names[] = { "refused_then_retried", "two_in_flight", "deferred_notification", "size_at_limit", "size_beyond_limit", "fc_toggled_midburst",
-	"shm", "socket", "event_readable_checked", "response_from_callback", "response_from_outside", "three_clients", "ring_full_refusal", "sendv", "client_send_blocked_then_rescued", "receive_buffer_too_small", "events_drained_under_flow_control", "sendv_recv", "sendv_recv_with_response_waiting", NULL };
-enum { K_RETRY, K_INFLIGHT, K_DEFER, K_ATLIMIT, K_BEYOND, K_FC, K_SHM, K_SOCK, K_READABLE, K_RESPCB, K_RESPOUT, K_THREE, K_FULL, K_SENDV, K_RESCUED, K_SMALLBUF, K_EVFC, K_SENDRECV, K_SRQUEUED };
+	"shm", "socket", "event_readable_checked", "response_from_callback", "response_from_outside", "three_clients", "ring_full_refusal", "sendv", "client_send_blocked_then_rescued", "receive_buffer_too_small", "events_drained_under_flow_control", "sendv_recv", "sendv_recv_with_response_waiting", "server_sendv", "iovec_with_empty_segment", NULL };
+enum { K_RETRY, K_INFLIGHT, K_DEFER, K_ATLIMIT, K_BEYOND, K_FC, K_SHM, K_SOCK, K_READABLE, K_RESPCB, K_RESPOUT, K_THREE, K_FULL, K_SENDV, K_RESCUED, K_SMALLBUF, K_EVFC, K_SENDRECV, K_SRQUEUED, K_SRVSENDV, K_EMPTYSEG };
 const char *verif_rule =
 	"case = transport, negotiated maximum size, 1-3 clients and an op list: client send/sendv/recv/event_recv (timeout 0), server step (dispatch one ready descriptor chosen by the case), "
 	"server response/event of generated length from inside the message callback or from outside, rate-limit changes (OFF, OFF_2, NORMAL, FAST, SLOW), fc_enable_max changes, shrinking the "
@@ -79,7 +79,15 @@ static void server_send(conn &c, bool event, const char *where)
 	struct qb_ipc_response_header *h = (struct qb_ipc_response_header *)srvbuf;
 	fill_msg(srvbuf, len, c.idx, seq, event ? 2 : 1, hs);
 	h->id = event ? 77 : 66; h->size = (int32_t)len; h->error = 0;
-	ssize_t rc = event ? qb_ipcs_event_send(c.sv, srvbuf, len) : qb_ipcs_response_send(c.sv, srvbuf, len);
+	ssize_t rc;
+	if (seq % 4 == 1 || seq % 4 == 3) {	/* the iovec variants: two segments, or three with an empty one in the middle (as writev allows) */
+		size_t cut = len > hs + 4 ? hs + 3 : len;
+		struct iovec iov[3] = { { srvbuf, cut }, { srvbuf, 0 }, { srvbuf + cut, len - cut } };
+		if (seq % 4 == 1) { iov[1] = iov[2]; rc = event ? qb_ipcs_event_sendv(c.sv, iov, 2) : qb_ipcs_response_sendv(c.sv, iov, 2); }
+		else { rc = event ? qb_ipcs_event_sendv(c.sv, iov, 3) : qb_ipcs_response_sendv(c.sv, iov, 3); VCLASS(R, K_EMPTYSEG); }
+		VCLASS(R, K_SRVSENDV);
+	}
+	else rc = event ? qb_ipcs_event_send(c.sv, srvbuf, len) : qb_ipcs_response_send(c.sv, srvbuf, len);
 	vop(R, event ? 11 : 10, c.idx, len);
 	VLOG(R, "  server %s to client %d len %zu seq %u (%s) -> %zd\n", event ? "event" : "response", c.idx, len, seq, where, rc);
 	if (rc == (ssize_t)len) {
@@ -229,10 +237,12 @@ extern "C" int verif_case(const uint8_t *data, size_t size, struct verif_report 
 			send_begin();
 			if (sr) {
 				struct iovec iov[2] = { { sbuf, hs + 3 }, { sbuf + hs + 3, len > hs + 3 ? len - hs - 3 : 0 } };
-				if (len > hs + 4) rc = qb_ipcc_sendv_recv(c.cl, iov, 2, rbuf, MAXMSG + 4096, 0);
+				if (len > hs + 4 && seq % 2) { struct iovec iov3[3] = { iov[0], { sbuf, 0 }, iov[1] }; rc = qb_ipcc_sendv_recv(c.cl, iov3, 3, rbuf, MAXMSG + 4096, 0); VCLASS(r, K_EMPTYSEG); }
+				else if (len > hs + 4) rc = qb_ipcc_sendv_recv(c.cl, iov, 2, rbuf, MAXMSG + 4096, 0);
 				else { iov[0].iov_len = len; rc = qb_ipcc_sendv_recv(c.cl, iov, 1, rbuf, MAXMSG + 4096, 0); }
 				VCLASS(r, K_SENDRECV);
 			}
+			else if (v2 && len > hs + 4 && op == 9) { struct iovec iov[3] = { { sbuf, hs + 3 }, { sbuf, 0 }, { sbuf + hs + 3, len - hs - 3 } }; rc = qb_ipcc_sendv(c.cl, iov, 3); VCLASS(r, K_SENDV); VCLASS(r, K_EMPTYSEG); }
 			else if (v2 && len > hs + 4) { struct iovec iov[2] = { { sbuf, hs + 3 }, { sbuf + hs + 3, len - hs - 3 } }; rc = qb_ipcc_sendv(c.cl, iov, 2); VCLASS(r, K_SENDV); }
 			else rc = qb_ipcc_send(c.cl, sbuf, len);
 			send_end();
